@@ -10,6 +10,12 @@ Theorem int_print_parse n :
 Proof. exact (PrintInt.int_print_parse n). Qed.
 Print Assumptions int_print_parse.
 
+(* ... and in base 0 (no prefix, a leading zero only for zero itself) *)
+Theorem int_print_parse_base0 n :
+  parse_int (str_of_int n) 0 = Some n.
+Proof. exact (PrintInt.int_print_parse_base0 n). Qed.
+Print Assumptions int_print_parse_base0.
+
 Theorem int_print_injective a b :
   str_of_int a = str_of_int b -> a = b.
 Proof. exact (PrintInt.int_print_injective a b). Qed.
